@@ -1786,8 +1786,9 @@ class InTablePhase(Phase):
     def startTagTable(self, token):
         self.parser.parseError("unexpected-start-tag-implies-end-tag",
                                {"startName": "table", "endName": "table"})
+        tableInScope = self.tree.elementInScope("table", variant="table")
         self.parser.phase.processEndTag(impliedTagToken("table"))
-        if not self.parser.innerHTML:
+        if tableInScope:
             return token
 
     def startTagStyleScript(self, token):
